@@ -232,6 +232,13 @@ def run_chunked(binary, mode, inputs, extra, run_, flags=True, chunk=20000, dec_
                 else:
                     r["dec"] = None
         results += out["results"]
+        if out.get("unstable"):
+            i = out["unstable"][0]
+            lab, b = part[i]
+            run_.violation("correspondence 'same bytes, same answer' no longer checks: ParseData classifies %d input(s) differently when they are parsed "
+                           "again after the other inputs of the run (first: %s)" % (len(out["unstable"]), lab),
+                           {"theorem_or_correspondence": "C09 view (ParseData is a function of the bytes)", "input_base64": base64.b64encode(b).decode(),
+                            "input": printable(b), "stream": lab}, no_input=True)
         if mode == "c09hidi":
             results_missing = out.get("missing")
             run_.coverage["missing_file"] = results_missing
